@@ -43,3 +43,10 @@ func (p *OutPort) VerifWriters() int {
 	defer p.mu.RUnlock()
 	return len(p.writers)
 }
+
+// VerifListening returns len(listening): the writers kept findable for listeners that have not returned yet.
+func (p *OutPort) VerifListening() int {
+	p.mu.RLock()
+	defer p.mu.RUnlock()
+	return len(p.listening)
+}
